@@ -521,6 +521,18 @@ class Unshelver:
             base_tree = tree.branch.repository.revision_tree(base_revision_id)
         tt = base_tree.preview_transform()
         tt.deserialize(records)
+        if tt.root is None:
+            # A shelf made in a tree without commits: the base tree has no
+            # root, and write_shelf stored the working tree's root as a
+            # versioned directory without name or parent.  Make it the root.
+            for trans_id in tt._new_id:
+                if (
+                    trans_id not in tt._new_name
+                    and tt._new_contents.get(trans_id) == "directory"
+                ):
+                    tt.adjust_path("", transform.ROOT_PARENT, trans_id)
+                    tt.fixup_new_roots()
+                    break
         return klass(tree, base_tree, tt, metadata.get(b"message"))
 
     def make_merger(self):
